@@ -69,6 +69,7 @@ struct set_adapter {
         s.reset( new set_type( (size_t) cap, (unsigned) ps, (unsigned) th ));
     }
     long size() { return (long) s->size(); }
+    long bucket_count() { return (long) s->bucket_count(); }
 
     result op( int, long code, long k, long a, long b )
     {
@@ -113,6 +114,7 @@ struct map_adapter {
         s.reset( new map_type( (size_t) cap, (unsigned) ps, (unsigned) th ));
     }
     long size() { return (long) s->size(); }
+    long bucket_count() { return (long) s->bucket_count(); }
 
     // results: find -> r1 found, r2 value
     result op( int, long code, long k, long a, long b )
